@@ -140,9 +140,16 @@ Definition rw_send (w : rw) : rw * bool :=
     let out2 := match data with [] => out1 | _ => CWrite data :: out1 end in
     (mkRw b1 (rstatus w) (rheader_written w) (rhijacked w) (rbypass w) out2, true).
 
+(** 1xx other than 101: an interim response (103 Early Hints); it does not end
+    the header phase. *)
+Definition is_informational (s : N) : bool := (100 <=? s)%N && (s <=? 199)%N && negb (s =? 101)%N.
+
 Definition rw_step (w : rw) (o : hop) : rw :=
   match o with
   | HWriteHeader s sse =>
+    if is_informational s then   (* passed straight on; the final status is still to come *)
+      mkRw (rbuf w) (rstatus w) (rheader_written w) (rhijacked w) (rbypass w) (CWriteHeader s :: rout w)
+    else
     if rheader_written w then w else
     let w1 := mkRw (rbuf w) s true (rhijacked w) (rbypass w) (rout w) in
     if sse then
@@ -179,7 +186,9 @@ Record client_view := mkView { v_status : N; v_body : str; v_flushes : N; v_hija
 Fixpoint view_aux (evs : list cev) (st : option N) (body : str) (fl : N) (hj : bool) : client_view :=
   match evs with
   | [] => mkView (match st with Some s => s | None => 200%N end) body fl hj
-  | CWriteHeader s :: r => view_aux r (match st with Some _ => st | None => Some s end) body fl hj
+  | CWriteHeader s :: r =>
+    if is_informational s then view_aux r st body fl hj       (* interim responses do not fix the status *)
+    else view_aux r (match st with Some _ => st | None => Some s end) body fl hj
   | CWrite p :: r => view_aux r (match st with Some _ => st | None => Some 200%N end) (body ++ p) fl hj
   | CFlush :: r => view_aux r (match st with Some _ => st | None => Some 200%N end) body (fl + 1)%N hj
   | CHijack :: r => view_aux r st body fl true
